@@ -669,6 +669,16 @@ Proof.
 Qed.
 
 
+(* a fault-free reconcile of a regular world applies EVERY action of its plan, in order, and nothing else touches
+   the pods: the pods of the API state afterwards are the plan folded over the pods before *)
+Lemma reconcile_applies_plan o lg w1 :
+  reconcile hashes w cache [] = (o, lg, w1) -> w_pods w1 = fold_left (exec1 s) acts pods.
+Proof.
+  intros Er. unfold reconcile in Er.
+  destruct (sync hashes cache {| rs_api := w; rs_log := []; rs_n := 0; rs_faults := [] |}) as [r0 st'] eqn:Es.
+  inversion Er as [[Eo El Ew]]. exact (sync_pods {| rs_api := w; rs_log := []; rs_n := 0; rs_faults := [] |} eq_refl eq_refl r0 st' Es).
+Qed.
+
 Lemma all_ok_names_nodup : forall l L, all_ok s cache L l -> NoDup (map p_name L) -> NoDup (map p_name (fold_left (exec1 s) l L)).
 Proof.
   induction l as [|a t IH]; intros L Hok Hn; cbn [fold_left all_ok] in *; [exact Hn|].
@@ -687,10 +697,7 @@ Proof.
   fold cache.
   destruct (reconcile hashes w cache []) as [[o lg] w1] eqn:Er. cbn [fst hw_api].
   (* the pods after the reconcile *)
-  assert (Hp1 : w_pods w1 = fold_left (exec1 s) acts pods).
-  { unfold reconcile in Er.
-    destruct (sync hashes cache {| rs_api := w; rs_log := []; rs_n := 0; rs_faults := [] |}) as [r0 st'] eqn:Es.
-    inversion Er as [[Eo El Ew]]. exact (sync_pods {| rs_api := w; rs_log := []; rs_n := 0; rs_faults := [] |} eq_refl eq_refl r0 st' Es). }
+  pose proof (reconcile_applies_plan _ _ _ Er) as Hp1.
   set (names := map p_name (w_pods w1)).
   set (wf_ := fold_left (fun a m => kubelet a m KSettle) names (fold_left (fun a m => kubelet a m KGone) names w1)).
   assert (Hok : all_ok s cache pods acts) by (apply (plan_all_ok pods W cache); intros j R; apply Hcc; exact R).
